@@ -16,12 +16,12 @@ ANSI = re.compile(rb"\x1b\[[0-9;?]*[ -/]*[@-~]|\x1b[()][0-9A-Za-z]|\x1b[=>]|\r")
 class PtyShell:
     """one interactive shell attached to a Sim (its own pty, its own control connection)"""
 
-    def __init__(self, sim, env_extra=None, cwd=None, argv=None):
+    def __init__(self, sim, env_extra=None, cwd=None, argv=None, launcher=False):
         self.sim = sim
         env = {"PROMPT": "cic> ", "TERM": "xterm"}
         if env_extra:
             env.update(env_extra)
-        self.pid = sim.spawn_shell(argv or [], env_extra=env, pty_mode=True, cwd=cwd)
+        self.pid = sim.spawn_shell(argv or [], env_extra=env, pty_mode=True, cwd=cwd, launcher=launcher)
         self.master = sim.master
         self.out = b""          # everything the terminal showed
         self.mark = 0
